@@ -176,6 +176,32 @@ def scripted(env: Env, hid: str, script: list[Outcome], *, cursor: str | None = 
     return fn
 
 
+def scripted_sync(env: Env, hid: str, script: list[Outcome]) -> Callable[..., Any]:
+    """A SYNCHRONOUS handler (kopf runs it "in a thread": see VLoop.run_in_executor): each invocation lasts its outcome's
+    `sleep` in virtual time, cannot be cancelled meanwhile, then returns / raises as scripted."""
+    ckey = f'script:{hid}'
+
+    def fn(**kw: Any) -> Any:
+        n = env.counters.get(ckey, 0)
+        env.counters[ckey] = n + 1
+        out = script[min(n, len(script) - 1)]
+        fn.__kv_duration__ = script[min(n + 1, len(script) - 1)].sleep   # type: ignore[attr-defined]   # of the NEXT invocation
+        from kv.vloop import OPID
+        env.log('call', id=hid, retry=kw.get('retry'), n=n, outcome=repr(out), op=OPID.get(), sync=True)
+        env.log('ret', id=hid, n=n, uid=None, op=OPID.get())
+        if out.kind == 'ok':
+            return out.result
+        if out.kind == 'temp':
+            raise kopf.TemporaryError('scripted temporary', delay=out.delay)
+        if out.kind == 'perm':
+            raise kopf.PermanentError('scripted permanent')
+        raise ValueError('scripted arbitrary')
+    fn.__name__ = fn.__qualname__ = hid
+    fn.__kv_duration__ = script[0].sleep     # type: ignore[attr-defined]
+    fn.__kv_on_start__ = lambda: env.log('sync-start', id=hid)    # type: ignore[attr-defined]
+    return fn
+
+
 def daemon_fn(env: Env, hid: str, reaction: str = 'obeys', lifetime: float | None = None,
               exit_delay: float = 0.0) -> Callable[..., Any]:
     """A daemon body with a scripted reaction to being stopped.
